@@ -201,6 +201,7 @@ class Inotify:
             self._close_resources()
             raise
         self._moved_from_events: dict[int, InotifyEvent] = {}
+        self._moved_from_wds: dict[int, int] = {}
 
     @property
     def event_mask(self) -> int:
@@ -225,6 +226,7 @@ class Inotify:
     def clear_move_records(self) -> None:
         """Clear cached records of MOVED_FROM events"""
         self._moved_from_events = {}
+        self._moved_from_wds = {}
 
     def source_for_move(self, destination_event: InotifyEvent) -> bytes | None:
         """The source path corresponding to the given MOVED_TO event.
@@ -242,6 +244,11 @@ class Inotify:
         reference.
         """
         self._moved_from_events[event.cookie] = event
+        wd = self._wd_for_path.get(event.src_path)
+        if wd is not None:
+            # Should the directory turn out to have left the tree, its own watch still knows where
+            # its book-keeping is by then (an ancestor may be renamed in the meantime).
+            self._moved_from_wds[event.cookie] = wd
 
     def add_watch(self, path: bytes) -> None:
         """Adds a watch for the given path.
@@ -264,7 +271,7 @@ class Inotify:
             if inotify_rm_watch(self._inotify_fd, wd) == -1:
                 Inotify._raise_error()
 
-    def remove_tree_watches(self, path: bytes) -> None:
+    def remove_tree_watches(self, path: bytes, cookie: int | None = None) -> None:
         """Stops watching the directory ``path`` and every directory below it.
 
         Needed once a directory has been moved out of the monitored tree: its kernel
@@ -273,10 +280,17 @@ class Inotify:
 
         :param path:
             Path under which the directory was known before it left the tree.
+        :param cookie:
+            Cookie of the IN_MOVED_FROM event that reported the directory leaving.
         """
         with self._lock:
             if self._closed:
                 return
+            # The event is up to half a second old. If an ancestor was renamed since, the
+            # book-keeping of the departed directory was re-keyed along with it.
+            wd = self._moved_from_wds.pop(cookie, None)
+            if wd is not None:
+                path = self._path_for_wd.get(wd, path)
             prefix = path + os.path.sep.encode()
             for watched_path, wd in list(self._wd_for_path.items()):
                 if watched_path == path or watched_path.startswith(prefix):
@@ -383,6 +397,7 @@ class Inotify:
                 if inotify_event.is_moved_from:
                     self.remember_move_from_event(inotify_event)
                 elif inotify_event.is_moved_to:
+                    self._moved_from_wds.pop(cookie, None)
                     move_src_path = self.source_for_move(inotify_event)
                     if move_src_path in self._wd_for_path:
                         moved_wd = self._wd_for_path[move_src_path]
